@@ -1,11 +1,13 @@
 # table consumed by mkmanifest.py
 claim("C03", "other",
-      "Decides, for every OpenMP task the executors create, the structural conditions that make the result schedule-independent: "
-      "(c) nothing a deferred task dereferences can be dead (capture-lifetime rule over firstprivate lists, lambda closures and stage-function frames). "
-      "A static lifetime argument quantifies over all schedules because it never looks at one; numerical equality to rounding is not decided.",
-      "Trusted: clang 14 front end + tbfscan exporter, OpenMP data-sharing semantics as implemented by g++ 12 (closure reached through firstprivate(__closure), confirmed by -fdump-tree-omplower and an ASan replay).",
-      "capture-lifetime / dependence-vs-effect / submission-summary rules over the clang AST (libTooling)", "DESIGN.md §2 C03")
-
+      "Decides the five structural conditions that make a task executor's result independent of the schedule - the schedule quantifier is removed because no rule looks at an interleaving: "
+      "(a) same submissions as the sequential reference (per stage the set of wrapper applications with the origin of every argument, level interval, guard, list-builder and mapper calls); "
+      "(b) the dependencies each task declares cover the memory blocks its wrapper calls read/write (effects derived from the wrapper's kernel-call slots and the container classes); "
+      "(c) nothing a deferred task dereferences can be dead: firstprivate lists, lambda closures, stage-function frames; (d) the kernel is selected by the executing worker's id inside the task, the per-worker vector is grown before submission, the shared wrapper has no mutable state; "
+      "(e) task-creating stage functions run only inside the joining region of execute(). quick: both OpenMP executors. thorough: + both Specx executors (same rules on task lambdas / SpRead / SpCommutativeWrite) and both StarPU executors (codelet table vs submission, pack/unpack agreement, callback effects vs access modes, handle slot vs block and level, join, per-worker kernel) through declaration-only stub headers. "
+      "Numerical equality 'to rounding' for non-additive kernels and the behaviour of the real Specx/StarPU runtimes are not decided.",
+      "Trusted: clang 14 front end + tbfscan, OpenMP data-sharing semantics as implemented by g++ 12 (closure reached through firstprivate(__closure): -fdump-tree-omplower + ASan replay), the operator role table; Specx/StarPU semantics as documented (stubs only declare names).",
+      "capture-lifetime / dependence-vs-effect / submission-summary rules over the clang AST (libTooling)", "DESIGN.md §2 C03, §8")
 claim("C12", "other",
       "Decides for every executor class (sequential, target/source, OpenMP x2, periodic top trees; thorough: Specx x2, StarPU x2 through declaration stubs): "
       "flag->stage map (each stage guarded by exactly its own bit, flags distinct single bits, composite masks = documented unions), stage order, "
